@@ -1,14 +1,68 @@
 """C21 - live spy/trace output emits every line once, in order, whatever the clock says."""
 from . import instr_targets as I
+import z3
+from pyvc.sym import SRef, Ref
+from pyvc.verify import Target, method, run_body
 
 LEVEL = 'proof'
 TAGS = ('C21',)
 TRUSTED = I.COMMON_TRUSTED
-ASSUMPTIONS = ['live flags are not toggled between steps', 'ActiveObject routes callbacks through a FIFO writer thread (queue.Queue contract) -- not re-proved here']
+ASSUMPTIONS = ['live flags are not toggled between steps', 'the writer thread of an active object takes the items of its line queue in order and calls fn(content) for each (queue.Queue is FIFO; the five-line thread function is not under contract); InstrumenationWriterClass.__init__ and _print are']
 EXPLANATION = 'The four live-output wrappers of the real source are verified around an abstract step that appends at most one trace record whose timestamp is an arbitrary clock reading (possibly equal to any earlier one) and any number of spy lines: the trace callback runs exactly once iff a record was appended, the spy callback once per line of the step, in order (loop invariant over the callback log).'
 MIN_OBLIGATIONS = 10
 
 
+W = 'activeobject.InstrumenationWriterClass.'
+
+
+def t_writer_init():
+    """The queue between an active object's thread and the writer thread takes every line: it has no bound, so no
+    line is refused and the chart's thread never waits for the console."""
+    def run(it):
+        c = it.c
+        wr = c.fresh_ref('writer', 'InstrumenationWriterClass')
+        out = run_body(it, method(it, wr, '__init__'), [])
+        c.prove('writer.__init__:post/returns-normally', out.raised is None, tags=('C21',))
+        if out.raised is not None:
+            return
+        q = c.read(wr, '_queue')
+        c.prove('writer.__init__:post/the-line-queue-is-an-empty-queue-without-a-bound',
+                z3.And(c.hget(q, 'maxsize') <= 0, c.hget(q, 'qsize') == 0), tags=('C21',))
+    return Target('InstrumenationWriterClass.__init__', run, [W + '__init__'])
+
+
+def t_writer_print():
+    """_print(fn, content) hands exactly one item (fn, content) to the line queue established by __init__ and returns."""
+    def run(it):
+        c = it.c
+        wr = c.fresh_ref('writer', 'InstrumenationWriterClass')
+        q = c.read(wr, '_queue')
+        c.assume(z3.And(c.hget(q, 'maxsize') <= 0, c.hget(q, 'qsize') >= 0))        # what __init__ establishes
+        n0 = c.hget(q, 'qsize')
+        fn = SRef(c.fresh('callback', Ref), 'fn')
+        line = SRef(c.fresh('line', Ref), 'str')
+        puts = []
+        it.w.hooks['queue.put'] = lambda it_, obj, args: puts.append((obj, args))
+        try:
+            out = run_body(it, method(it, wr, '_print'), [], {'fn': fn, 'content': line})
+        finally:
+            it.w.hooks.pop('queue.put', None)
+        c.prove('writer._print:post/returns-normally', out.raised is None, tags=('C21',))
+        c.prove('writer._print:post/one-item-handed-to-the-line-queue',
+                z3.And(z3.BoolVal(len(puts) == 1), c.hget(c.read(wr, '_queue'), 'qsize') == n0 + 1,
+                       c.read(wr, '_queue').e == q.e), tags=('C21',))
+        if len(puts) == 1:
+            obj, args = puts[0]
+            item = args[0]
+            c.prove('writer._print:post/the-item-carries-this-callback-and-this-line',
+                    z3.And(obj.e == q.e, c.to_ref(c.read(item, 'fn')) == fn.e, c.to_ref(c.read(item, 'content')) == line.e),
+                    tags=('C21',))
+        c.cover('writer._print:cover')
+    return Target('InstrumenationWriterClass._print', run, [W + '_print'])
+
+
 def build(src, tier):
     out = I.family(src, tier)
+    from contracts import base_world
+    out.append((base_world(src), [t_writer_init(), t_writer_print()]))
     return out
